@@ -76,7 +76,11 @@ def as_bool(v):
     if k == 'none':
         return BoolVal(False)
     if k == 'opt':
-        return Not(S.opt_is_none(v))
+        return And(Not(S.opt_is_none(v)), as_bool(S.opt_val(v)))
+    if k == 'name':
+        return v.t != S.name_lit('').t
+    if k in ('pair', 'block'):
+        return BoolVal(True)
     raise Unsupported('truthiness of %r' % (v.ty,))
 
 
@@ -176,6 +180,8 @@ class Evaluator:
             return self.eng.block_member(self, base, attr, path, spec)
         if isinstance(base, V) and base.ty == S.T_INST:
             return S.inst_field(base, attr)
+        if isinstance(base, V) and base.ty == S.T_SUB and attr == 'graph':
+            return S.sub_graph(base)
         if isinstance(base, V):
             return ('valmethod', base, attr, node.value if node is not None else None)
         raise Unsupported('attribute %s of %r' % (attr, base))
@@ -242,8 +248,12 @@ class Evaluator:
         return self.subscript(base, idx, path, spec, ast.unparse(node))
 
     def subscript(self, base, idx, path, spec, site):
+        if isinstance(base, VObj) and base.cls == 'ConcealedRegionView':
+            base = base.f['scfg']             # ConcealedRegionView.__getitem__ returns self.scfg[item] (contract proved separately)
         if isinstance(base, VObj) and base.cls == 'SCFG':
             base = base.f['graph']
+        if isinstance(base, V) and base.ty == S.T_SUB:
+            base = S.sub_graph(base)          # SCFG.__getitem__ of the region's sub-graph
         k = base.ty[0]
         if k == 'seq':
             n = S.seq_n(base)
@@ -303,6 +313,8 @@ class Evaluator:
                 return S.seq_from_list(o.ty[1], [])
             return m
         a, b = empty_like(a, b), empty_like(b, a)
+        if isinstance(a, V) and isinstance(b, V) and a.ty == ('opt', b.ty) and ast.dump(node.test) == ast.dump(node.body):
+            a = S.opt_val(a)          # `x if x else y`: x is truthy, hence not None, where it is used
         if not isinstance(a, V) or not isinstance(b, V) or a.ty != b.ty:
             raise Unsupported('if-expression with different types')
         return V(a.ty, If(c, a.t, b.t))
@@ -390,8 +402,12 @@ class Evaluator:
         return S.seq_from_list(et, vals)
 
     def contains(self, c, x):
+        if isinstance(c, VObj) and c.cls == 'ConcealedRegionView':
+            c = c.f['scfg']
         if isinstance(c, VObj) and c.cls == 'SCFG':
             c = c.f['graph']
+        if isinstance(c, V) and c.ty == S.T_SUB:
+            c = S.sub_graph(c)
         k = c.ty[0]
         if k == 'seq':
             return S.seq_mem(c, x.t)
@@ -1350,6 +1366,16 @@ class Engine:
         if what == ('collections', 'defaultdict') and len(node.args) == 1 and isinstance(node.args[0], ast.Name) \
                 and node.args[0].id in ('set', 'list', 'dict', 'int'):
             return ('emptytmap', node.args[0].id)
+        if what == ('collections', 'deque') and len(node.args) <= 1 and not node.keywords:
+            # a deque used as a FIFO is modelled as a list (append/extend at the right, popleft() = pop(0))
+            if not node.args:
+                return ('emptyseq',)
+            v = ev.ev(node.args[0], path, spec)
+            if isinstance(v, V) and v.ty[0] == 'seq':
+                return v
+            if isinstance(v, tuple) and v[0] == 'emptyseq':
+                return v
+            return self.list_of_set(v, path)
         if what == ('functools', 'reduce') and len(node.args) == 2 and ast.unparse(node.args[0]) == 'set.intersection' \
                 and isinstance(node.args[1], ast.ListComp) and len(node.args[1].generators) == 1 and not node.args[1].generators[0].ifs \
                 and isinstance(node.args[1].generators[0].target, ast.Name):
@@ -1401,6 +1427,11 @@ class Engine:
                 return NONE
             if meth == 'copy':
                 return base
+            if meth == 'popleft' and not a:
+                self.add_obligation(path, 'noraise', site, n > 0, 'IndexError')
+                r = self.seq_remove_at(base, IntVal(0), path)
+                self.assign_to(ev, basenode, r, path)
+                return S.seq_get(base, IntVal(0))
             if meth == 'pop':
                 if not a:
                     self.add_obligation(path, 'noraise', site, n > 0, 'IndexError')
@@ -1487,8 +1518,24 @@ class Engine:
     def reach_pred(self, g):
         return ufun('Reach1', S.sort_of(g.ty), S.sort_of(T_NAME), S.sort_of(T_NAME), z3.BoolSort())
 
+    def named(self, ev, v, path, hint='nm'):
+        """a closed compound term (an if-expression ...) replaced by a constant equal to it, so that it can occur in patterns"""
+        t = v.t
+        if z3.is_const(t) or not ev.is_closed(t) or self.in_axiom:
+            return v
+        hit = self.set_cache.get(('named', t.get_id()))
+        if hit is None:
+            c = z3.FreshConst(t.sort(), hint)
+            hit = (c, c == t)
+            self.set_cache[('named', t.get_id())] = hit
+            self.keepalive.append(t)
+        if not any(hit[1].eq(h) for h in path.hyps):
+            path.hyps.append(hit[1])
+        return V(v.ty, hit[0])
+
     def reach1(self, ev, node, path, spec):
         g, a, b = (ev.ev(x, path, spec) for x in node.args)
+        a = self.named(ev, a, path, 'start')
         R = self.reach_pred(g)
         key = ('reach', g.t.get_id())
         if key not in self._axiom_keys and ev.is_closed(g.t):
@@ -1518,6 +1565,7 @@ class Engine:
         """Closure principle instance (axiom R-ind, DESIGN section 6): a set that contains the successors of `a`
         and is closed under successors inside the graph contains everything reachable from `a`."""
         g, a, st = (ev.ev(x, path, spec) for x in node.args)
+        a = self.named(ev, a, path, 'start')
         R = self.reach_pred(g)
         x, y = z3.FreshConst(S.sort_of(T_NAME), 'cx'), z3.FreshConst(S.sort_of(T_NAME), 'cy')
         k = z3.FreshInt('ck')
@@ -2110,6 +2158,8 @@ class Engine:
                 self.assign_target(ev, e, p, path)
             return
         if isinstance(tgt, ast.Name):
+            if isinstance(val, tuple) and val and val[0] in ('emptyseq', 'emptyset', 'emptydict', 'emptytmap'):
+                val = self.typed_empty(tgt.id, None)
             if isinstance(val, V) and tgt.id in self.c.locals:
                 want = S.parse_type(self.c.locals[tgt.id])
                 if val.ty != want and want[0] != 'obj':
